@@ -6,6 +6,7 @@ package main
 // did not reach.
 
 import (
+	"compress/gzip"
 	"bytes"
 	"fmt"
 	"io"
@@ -311,6 +312,67 @@ func (c *Ctx) hugeInputs(name string) []wfInput {
 	return out
 }
 
+// exactLineInputs: one line of the stream is EXACTLY L bytes long without its terminator (and, in a second
+// input, with it), for L a power of two up to 2^20 -- the sizes at which a reader that handles lines in
+// fixed-size pieces sees a piece boundary fall exactly on the end of a line.
+func (c *Ctx) exactLineInputs(name string) []wfInput {
+	var out []wfInput
+	sizes := []int{1 << 16, 1 << 18, 1 << 20}
+	if c.thor {
+		sizes = []int{1 << 12, 1 << 13, 1 << 15, 1 << 16, 1 << 17, 1 << 18, 1 << 19, 1 << 20, 3 << 18}
+	}
+	longest := func(data []byte) int {
+		m := 0
+		for _, l := range bytes.Split(data, []byte("\n")) {
+			if len(l) > m {
+				m = len(l)
+			}
+		}
+		return m
+	}
+	mk := func(x int, d string) (wfInput, bool) {
+		run := bytes.Repeat([]byte("ACGT"), x/4+1)[:x]
+		switch name {
+		case "fasta":
+			return fastaInput([]*fasta.Fasta{{Name: []byte("a"), Sequence: []byte("AC")}, {Name: run, Sequence: []byte("ACG")}, {Name: []byte("c"), Sequence: []byte("A")}}, d), true
+		case "fastq":
+			return fastqInput([]*fastq.Fastq{{Name: []byte("a"), Sequence: []byte("A"), Quals: []byte("I")}, {Name: []byte("b"), Sequence: run, Quals: bytes.Repeat([]byte("I"), x)}, {Name: []byte("c"), Sequence: []byte("A"), Quals: []byte("I")}}, d), true
+		case "sam", "samh":
+			r := plainSam("big")
+			r.Seq, r.Qual = string(run), "*"
+			return samInput(name, []string{"@CO\tx"}, []*sam.SAM{plainSam("a"), r, plainSam("b")}, d), true
+		case "bed":
+			return bedInput([]*bed.BED{{N: 4, Chrom: "a", ChromStart: 1, ChromEnd: 2, Name: "n"}, {N: 4, Chrom: "c", ChromStart: 1, ChromEnd: 2, Name: string(run)}, {N: 4, Chrom: "d", ChromStart: 3, ChromEnd: 4, Name: "m"}}, d), true
+		case "newick":
+			return nwkInput([]*newick.Node{tree1("r", tree1(string(run)), tree1("b")), tree1("s")}, d), true
+		}
+		return wfInput{}, false
+	}
+	for _, L := range sizes {
+		for _, target := range []int{L, L - 1} {
+			d := fmt.Sprintf("a line of exactly %d bytes without its terminator", target)
+			in, ok := mk(target, d)
+			if !ok {
+				return nil
+			}
+			if l0 := longest(in.data); l0 != target {
+				in, _ = mk(target-(l0-target), d)
+			}
+			if name != "newick" && longest(in.data) != target {
+				continue
+			}
+			out = append(out, in)
+		}
+	}
+	// a long header line (sam) of exactly these sizes too
+	if name == "sam" || name == "samh" {
+		for _, L := range sizes {
+			out = append(out, samInput(name, []string{"@CO\t" + strings.Repeat("h", L-4), "@CO\tshort"}, []*sam.SAM{plainSam("a"), plainSam("b")}, fmt.Sprintf("a header line of exactly %d bytes", L)))
+		}
+	}
+	return out
+}
+
 // independentInputs renders generated records with the HARNESS's own few lines of formatting code, not with
 // the library's writers: text a reader accepts must be a fixed point of the codec whoever wrote it (C11),
 // and a defect shared by writer and reader (a convention applied on one side only) cannot hide.
@@ -531,10 +593,24 @@ func specialCases(c *Ctx, name string) {
 		} else if fp := safe(func() string { return fixedPoint(f, in.data) }); fp != "" {
 			oracle = fp
 		}
+		if oracle == "" {
+			// the same text through File (plain and gzip): the third way records are read back
+			for _, gz := range []bool{false, true} {
+				nm := fmt.Sprintf("sp-%s-%d.dat", name, len(c.cases))
+				if gz {
+					nm += ".gz"
+				}
+				p := writeTemp(nm, in.data, gz)
+				if fg := itemsStr(f.file(p, 0, len(in.data)+16)); fg != in.want && oracle == "" {
+					oracle = fmt.Sprintf("%s.File(%s): read(write(records)) != records (%s): got %s", name, nm, in.desc, trunc(fg, 100))
+				}
+				os.Remove(p)
+			}
+		}
 		c.add(Case{Op: decOpLine(f, "e", in.data), Impl: got, Kind: "special-input", Nontrivial: true, Oracle: oracle,
 			Note: fmt.Sprintf("%s input, %s: %q…", name, in.desc, trunc(string(in.data), 60))})
 	}
-	for _, in := range c.hugeInputs(name) {
+	for _, in := range append(c.hugeInputs(name), c.exactLineInputs(name)...) {
 		items, st := f.decode(bytes.NewReader(in.data), 0, 64)
 		got := itemsStr(items, st)
 		oracle := ""
@@ -549,6 +625,7 @@ func specialCases(c *Ctx, name string) {
 // deliveryCases (C06): the special and huge inputs under delivery schedules and through File.
 func deliveryCases(c *Ctx, f *format) {
 	ins := append(c.specialInputs(f.name), c.hugeInputs(f.name)...)
+	ins = append(ins, c.exactLineInputs(f.name)...)
 	for i, in := range ins {
 		limit := len(in.data) + 16
 		if len(in.data) > 50000 {
@@ -563,7 +640,9 @@ func deliveryCases(c *Ctx, f *format) {
 			}
 		}
 		try(bytes.NewReader(in.data), "whole")
-		try(&chunkReader{data: in.data, sizes: []int{1}}, "one byte at a time")
+		if len(in.data) <= 300000 || c.thor {
+			try(&chunkReader{data: in.data, sizes: []int{1}}, "one byte at a time")
+		}
 		try(&chunkReader{data: in.data, sizes: []int{1, 5000}}, "first one byte, then large chunks")
 		try(&chunkReader{data: in.data, sizes: []int{2, 1 << 20}}, "first two bytes, then the rest")
 		try(&chunkReader{data: in.data, sizes: []int{3, 0, 7}}, "3, empty, 7 …")
@@ -589,7 +668,32 @@ func deliveryCases(c *Ctx, f *format) {
 			}
 			os.Remove(p)
 		}
-		c.add(Case{Kind: f.name + "-special-delivery", Nontrivial: true, Oracle: oracle, Note: fmt.Sprintf("%s input of %d bytes (%s) under %d deliveries incl. File plain/.gz", f.name, len(in.data), in.desc, n)})
+		// gzip files of several members (cat a.gz b.gz), with an empty last member, with a file name in the header
+		if len(in.data) > 2 {
+			cuts := [][]int{{len(in.data) / 2}, {1, len(in.data) - 1}, {len(in.data) / 3, 2 * len(in.data) / 3}, {len(in.data)}}
+			for k, cut := range cuts {
+				var b bytes.Buffer
+				prev := 0
+				for j, at := range append(cut, len(in.data)) {
+					zw, _ := gzip.NewWriterLevel(&b, []int{gzip.DefaultCompression, gzip.BestSpeed, gzip.NoCompression}[(k+j)%3])
+					if j == 0 && k%2 == 1 {
+						zw.Name = "records.txt"
+						zw.Comment = "written by the harness"
+					}
+					zw.Write(in.data[prev:at])
+					zw.Close()
+					prev = at
+				}
+				nm := fmt.Sprintf("c06m-%s-%d-%d.dat.gz", f.name, i, k)
+				p := writeTemp(nm, b.Bytes(), false)
+				n++
+				if got := itemsStr(f.file(p, 0, limit)); got != in.want && oracle == "" {
+					oracle = fmt.Sprintf("%s.File(%s) (%s; a gzip file of %d members) differs from the records written: %s", f.name, nm, in.desc, len(cut)+1, trunc(got, 100))
+				}
+				os.Remove(p)
+			}
+		}
+		c.add(Case{Kind: f.name + "-special-delivery", Nontrivial: true, Oracle: oracle, Note: fmt.Sprintf("%s input of %d bytes (%s) under %d deliveries incl. File plain/.gz/multi-member .gz", f.name, len(in.data), in.desc, n)})
 	}
 }
 
